@@ -737,13 +737,15 @@ func run(c *core.Ctx) {
 
 func replay(c *core.Ctx, raw json.RawMessage) {
 	var pc peerCase
-	if json.Unmarshal(raw, &pc) == nil && (pc.Part == "peer" || pc.Part == "retained") {
+	if json.Unmarshal(raw, &pc) == nil && (pc.Part == "peer" || pc.Part == "retained" || pc.Part == "many") {
 		restore := quietBadger()
 		defer restore()
 		root, _ := os.MkdirTemp("", "c06-*")
 		defer os.RemoveAll(root)
 		if pc.Part == "peer" {
 			runPeer(c, root, pc)
+		} else if pc.Part == "many" {
+			runMany(c, root, pc)
 		} else {
 			runRetained(c, root, pc)
 		}
